@@ -14,8 +14,7 @@ SetOf(s) == { s[i] : i \in 1..Len(s) }
 Proved(e) == { e.after_props[i][2] : i \in { i \in 1..Len(e.after_props) : e.after_props[i][1] } }
 OpenAfter(e) == { e.after_props[i][2] : i \in { i \in 1..Len(e.after_props) : ~e.after_props[i][1] } }
 ClausesOf(e) ==
-  IF e.kind = "search_fail" THEN {"SearchRaises"}
-  ELSE IF e.kind # "suggest" \/ e.outcome = "notapplied" THEN {}
+  IF e.kind # "suggest" \/ e.outcome = "notapplied" THEN {}
   ELSE (IF e.outcome = "fail" THEN {"NeverFailsOutright"} ELSE {})
        \cup (IF e.outcome = "success" /\ e.has_goal /\ ~(SetOf(e.new_gaps) \subseteq SetOf(e.adv_goal)) THEN {"GoalsAdvertised"} ELSE {})
        \cup (IF e.outcome = "success" /\ e.has_goal /\ e.adv_goal = <<>> /\ e.new_gaps # <<>> THEN {"SolvesLeavesNone"} ELSE {})
@@ -23,7 +22,8 @@ ClausesOf(e) ==
        \cup (IF e.outcome = "success" /\ e.has_fact /\ ~(SetOf(e.adv_fact) \subseteq Proved(e)) THEN {"FactAppears"} ELSE {})
        \cup (IF ~e.orig_unchanged THEN {"CopyIsolated"} ELSE {})
 \* informational: a query for a parameter that the method does not declare (the property allows "further named parameters")
-DivergesOf(e) == e.kind = "suggest" /\ e.outcome = "query" /\ ~(SetOf(e.query_other) \subseteq (SetOf(e.sig) \ SetOf(e.given)))
+\* also informational: search_method itself raised (no suggestion was returned, so the property does not speak about it)
+DivergesOf(e) == e.kind = "search_fail" \/ e.kind = "suggest" /\ e.outcome = "query" /\ ~(SetOf(e.query_other) \subseteq (SetOf(e.sig) \ SetOf(e.given)))
 TNext == LET e == Trace[l] IN TStep(e.tid, ClausesOf(e), e.kind = "suggest" /\ e.outcome \in {"success", "query", "fail"}, DivergesOf(e))
 TSpec == TInit /\ [][TNext]_l
 =============================================================================
